@@ -7,40 +7,41 @@ namespace DarkluaModel
 open Sem
 
 namespace ClosureFam
+variable {md : Bool}
 
-theorem es {xs ys} (h : Forall2 (fun a b => R (.e a) (.e b)) xs ys) : R (.es xs) (.es ys) := by
+theorem es {xs ys} (h : Forall2 (fun a b => R md (.e a) (.e b)) xs ys) : R md (.es xs) (.es ys) := by
   induction h with
   | nil => exact .esNil
   | cons h1 _ ih => exact .esCons h1 ih
 
-theorem ts {xs ys} (h : Forall2 (fun a b => R (.t a) (.t b)) xs ys) : R (.ts xs) (.ts ys) := by
+theorem ts {xs ys} (h : Forall2 (fun a b => R md (.t a) (.t b)) xs ys) : R md (.ts xs) (.ts ys) := by
   induction h with
   | nil => exact .tsNil
   | cons h1 _ ih => exact .tsCons h1 ih
 
-theorem ss {xs ys} (h : Forall2 (fun a b => R (.s a) (.s b)) xs ys) : R (.ss xs) (.ss ys) := by
+theorem ss {xs ys} (h : Forall2 (fun a b => R md (.s a) (.s b)) xs ys) : R md (.ss xs) (.ss ys) := by
   induction h with
   | nil => exact .ssNil
   | cons h1 _ ih => exact .ssCons h1 ih
 
-theorem elifs {xs ys} (h : Forall2 (PairRel (fun a b => R (.e a) (.e b)) (fun a b => R (.e a) (.e b))) xs ys) :
-    R (.elifs xs) (.elifs ys) := by
+theorem elifs {xs ys} (h : Forall2 (PairRel (fun a b => R md (.e a) (.e b)) (fun a b => R md (.e a) (.e b))) xs ys) :
+    R md (.elifs xs) (.elifs ys) := by
   induction h with
   | nil => exact .elifsNil
   | @cons a b _ _ h1 _ ih =>
     obtain ⟨a1, a2⟩ := a; obtain ⟨b1, b2⟩ := b
     exact .elifsCons h1.1 h1.2 ih
 
-theorem branches {xs ys} (h : Forall2 (PairRel (fun a b => R (.e a) (.e b)) (fun a b => R (.b a) (.b b))) xs ys) :
-    R (.branches xs) (.branches ys) := by
+theorem branches {xs ys} (h : Forall2 (PairRel (fun a b => R md (.e a) (.e b)) (fun a b => R md (.b a) (.b b))) xs ys) :
+    R md (.branches xs) (.branches ys) := by
   induction h with
   | nil => exact .branchesNil
   | @cons a b _ _ h1 _ ih =>
     obtain ⟨a1, a2⟩ := a; obtain ⟨b1, b2⟩ := b
     exact .branchesCons h1.1 h1.2 ih
 
-theorem entries {xs ys} (h : Forall2 (EntryRel (fun a b => R (.e a) (.e b))) xs ys) :
-    R (.entries xs) (.entries ys) := by
+theorem entries {xs ys} (h : Forall2 (EntryRel (fun a b => R md (.e a) (.e b))) xs ys) :
+    R md (.entries xs) (.entries ys) := by
   induction h with
   | nil => exact .entriesNil
   | @cons a b _ _ h1 _ ih =>
@@ -49,7 +50,7 @@ theorem entries {xs ys} (h : Forall2 (EntryRel (fun a b => R (.e a) (.e b))) xs 
     · obtain ⟨rfl, h1⟩ := h1; exact .entriesNamed h1 ih
     · exact .entriesKeyed h1.1 h1.2 ih
 
-theorem segs {xs ys} (h : Forall2 (SegRel (fun a b => R (.e a) (.e b))) xs ys) : R (.segs xs) (.segs ys) := by
+theorem segs {xs ys} (h : Forall2 (SegRel (fun a b => R md (.e a) (.e b))) xs ys) : R md (.segs xs) (.segs ys) := by
   induction h with
   | nil => exact .segsNil
   | @cons a b _ _ h1 _ ih =>
@@ -58,7 +59,7 @@ theorem segs {xs ys} (h : Forall2 (SegRel (fun a b => R (.e a) (.e b))) xs ys) :
     · exact .segsV h1 ih
 
 /-- a `var` target is only related to itself (read off the fundamental theorem) -/
-theorem tVar {a b : String} (h : R (.t (.var a)) (.t (.var b))) : a = b := by
+theorem tVar {a b : String} (h : R md (.t (.var a)) (.t (.var b))) : a = b := by
   have h := fundT h ⟨Unit, fun _ => (), fun _ => 0, fun _ _ => (), fun _ _ => (), fun _ _ => (), fun _ _ => (),
       fun _ _ => (), fun _ _ => (), fun _ _ => (), fun _ => (), fun _ _ => false, fun _ _ => false,
       fun _ _ => false, fun _ => false, fun _ => (), fun _ => none, fun _ => [], fun _ => none,
@@ -71,14 +72,15 @@ theorem tVar {a b : String} (h : R (.t (.var a)) (.t (.var b))) : a = b := by
 end ClosureFam
 
 open ClosureFam in
-/-- the stage-2 congruence family: the congruence closure of exact steps -/
-def closureFam : CongFam where
-  relE := fun a b => R (.e a) (.e b)
-  relT := fun a b => R (.t a) (.t b)
-  relS := fun a b => R (.s a) (.s b)
-  relL := fun a b => R (.l a) (.l b)
-  relB := fun a b => R (.b a) (.b b)
-  relF := fun a b => R (.f a) (.f b)
+/-- the stage-2 congruence family: the congruence closure of exact (`md = false`) or
+timeout-relaxed (`md = true`) steps -/
+def closureFam (md : Bool) : CongFam where
+  relE := fun a b => R md (.e a) (.e b)
+  relT := fun a b => R md (.t a) (.t b)
+  relS := fun a b => R md (.s a) (.s b)
+  relL := fun a b => R md (.l a) (.l b)
+  relB := fun a b => R md (.b a) (.b b)
+  relF := fun a b => R md (.f a) (.f b)
   reflE := R.reflE
   reflT := R.reflT
   reflS := R.reflS
